@@ -154,9 +154,9 @@ def extract_ast():
                 if h.type is None:
                     names = ["BaseException"]
                 elif isinstance(h.type, ast.Tuple):
-                    names = [_name(e) for e in h.type.elts]
+                    names = [_name(e).split(".")[-1] for e in h.type.elts]
                 else:
-                    names = [_name(h.type)]
+                    names = [_name(h.type).split(".")[-1]]
                 # what the clause does: re-raise under --debug, write to stderr, exit non-zero
                 body_src = ast.unparse(ast.Module(body=h.body, type_ignores=[]))
                 shape = []
